@@ -40,8 +40,12 @@ func newBoundClaim(e *world.Env, rng *rand.Rand, zones []string) string {
 		Spec: corev1.PersistentVolumeSpec{PersistentVolumeSource: corev1.PersistentVolumeSource{CSI: &corev1.CSIPersistentVolumeSource{Driver: csiDriver, VolumeHandle: name}}}}
 	if len(zones) > 0 {
 		sel := &corev1.NodeSelector{}
-		for _, z := range zones {
-			sel.NodeSelectorTerms = append(sel.NodeSelectorTerms, zoneTerm(z)) // OR-ed terms
+		if len(zones) > 1 && rng.Intn(2) == 0 {
+			sel.NodeSelectorTerms = append(sel.NodeSelectorTerms, zoneTerm(zones...)) // one term, several values
+		} else {
+			for _, z := range zones {
+				sel.NodeSelectorTerms = append(sel.NodeSelectorTerms, zoneTerm(z)) // OR-ed terms
+			}
 		}
 		pv.Spec.NodeAffinity = &corev1.VolumeNodeAffinity{Required: sel}
 	}
@@ -78,8 +82,11 @@ func setupVolumes(rng *rand.Rand, s *common.Scenario) {
 	// sc-zonal restricts provisioning to 1-2 zones, as one or two OR-ed topology terms
 	zs := rng.Perm(len(gen.Zones))
 	terms := []corev1.TopologySelectorTerm{{MatchLabelExpressions: []corev1.TopologySelectorLabelRequirement{{Key: corev1.LabelTopologyZone, Values: []string{gen.Zones[zs[0]]}}}}}
-	if rng.Intn(2) == 0 {
+	switch rng.Intn(3) {
+	case 0:
 		terms = append(terms, corev1.TopologySelectorTerm{MatchLabelExpressions: []corev1.TopologySelectorLabelRequirement{{Key: corev1.LabelTopologyZone, Values: []string{gen.Zones[zs[1]]}}}})
+	case 1:
+		terms[0].MatchLabelExpressions[0].Values = []string{gen.Zones[zs[0]], gen.Zones[zs[1]]} // one term, two values
 	}
 	scs[1].AllowedTopologies = terms
 	for _, sc := range scs {
@@ -122,6 +129,20 @@ func attachVolumes(rng *rand.Rand, s *common.Scenario, batch []*corev1.Pod) {
 			continue
 		}
 		nv := 1 + rng.Intn(2)
+		if rng.Intn(4) == 0 {
+			// several volumes whose zone sets overlap without being equal (nested sets in PRNG mount order): the pod is only
+			// admissible in the intersection, whichever volume is listed first
+			zs := rng.Perm(len(gen.Zones))
+			sets := [][]string{{gen.Zones[zs[0]]}, {gen.Zones[zs[0]], gen.Zones[zs[1]]}}
+			if len(gen.Zones) > 2 && rng.Intn(2) == 0 {
+				sets = append(sets, []string{gen.Zones[zs[0]], gen.Zones[zs[1]], gen.Zones[zs[2]]})
+			}
+			rng.Shuffle(len(sets), func(i, j int) { sets[i], sets[j] = sets[j], sets[i] })
+			for _, zones := range sets {
+				withClaim(cur, newBoundClaim(e, rng, zones))
+			}
+			nv = 0
+		}
 		for i := 0; i < nv; i++ {
 			switch rng.Intn(5) {
 			case 0, 1:
